@@ -9,40 +9,51 @@ RUN_MODULE = "RunC13"
 TRANSLATOR_UNITS = []
 SHARD = 700
 F4 = "F4-asyncfifo-depth1-elaborate"
+F_SHORT = "C13-wreset-too-short"                 # write-domain reset shorter than the flush pattern leaves stale pointers
+F_BUFREG = "C13-buffered-wreset-keeps-entry"     # AsyncFIFOBuffered output register survives a write-domain reset
+F_RRST = "C13-buffered-rreset-drops-entry"       # AsyncFIFOBuffered loses entries on a read-domain reset
 RULE = ("real AsyncFIFO/AsyncFIFOBuffered, domains 'read'/'write' declared by hand, clocks driven from a testbench by "
         "ctx.set(Cat(clk_w, clk_r), bits) through event words over {W,R,WR} (both clocks low between events), inputs "
-        "(w_en,w_data,r_en,write-rst) set before each edge, all six outputs read after every event and compared with the "
-        "Coq model trace (vm_compute) AND with a Python deque monitor (overflow, underflow, r_rdy -> r_data = oldest, "
-        "levels in 0..depth; its verdict is the last integer of the observation, the model side says 0). "
-        "Streams: (1) construct+elaborate for both classes, depths -3..40, exact_depth both ways (spec answer 'elaborates' "
-        "and faithful answer); (2) Gray encode/decode as elaborated, all values of widths 0..7 + random wide; "
-        "(3) ALL event words of length <= L (quick 6, 7 for AsyncFIFO(2) all-on, 5 after a preamble; thorough 7/8/7) for "
-        "AsyncFIFO(depth 2) and AsyncFIFOBuffered(depth 3) after preambles {none, filled+visible, past start-up reset}, "
-        "strobes all-on and random; "
-        "(4) seeded random walks (quick 400 events, thorough 2000) for depths 0..9,16,17 x both classes x exact both ways "
-        "x regimes 1:1, 1:7, 7:1, bursty, coincident-heavy with strobe phases (fill, drain, balanced, saturated) and, in "
-        "a fraction, write-domain reset pulses. non-trivial = (trace) some event shows r_rdy=1, i.e. data crossed the CDC; "
-        "(elab) depth > 0; (gray) width > 0; distinct by case hash")
+        "(w_en, w_data, r_en, write-domain rst, read-domain rst) set before each edge, all six outputs read after every "
+        "event and compared with the Coq model trace (vm_compute) AND with a Python deque monitor (w_rdy while depth "
+        "entries held, r_rdy -> r_data = oldest unread, levels in 0..depth, drain/visibility bounds of the theorems after "
+        "writing stops, write-reset empties the FIFO, read-reset loses nothing); the monitor's verdict is the last integer "
+        "of the observation and the model side says 0. Streams: (1) construct+elaborate for both classes, depths -3..40 "
+        "and 63..4097 around powers of two, exact_depth both ways, width 4 and width -1 (TypeError) (spec answer "
+        "'elaborates' and faithful answer; exception CLASS compared); (2) Gray encode/decode as elaborated, all values of "
+        "widths 0..7 + random wide; (3) ALL event words of bounded length: AsyncFIFO(2)/Buffered(3) width 3 over {W,R,WR} "
+        "(L 6/7, 5 after preambles {filled+visible, past start-up}), AsyncFIFO(4)/Buffered(5) width 1 (L 4), and over the "
+        "alphabets {W,R,WR}x{write-rst} and {W,R,WR}x{read-rst} after a filling preamble (L 3, thorough 4); (4) seeded "
+        "random walks (quick 400 events, thorough 2000) on constructible depths only (requested 0,2..9,16,17 rounded, and "
+        "exact conforming depths) x both classes x regimes 1:1, 1:7, 7:1, bursty, coincident-heavy with strobe phases; "
+        "40 % of walks carry write-reset episodes (wrstL: all long enough, wrstS: also too short) or read-reset pulses; half "
+        "end in a "
+"no-write, r_en=1 drain tail. non-trivial = (trace) some event shows r_rdy=1; (elab) depth > 0; (gray) width > 0")
 MODELLED = ("AsyncFIFO.elaborate / AsyncFIFOBuffered.elaborate register-transfer behaviour, FFSynchronizer (2 and 4 stages), "
             "AsyncFFSynchronizer flops, Memory read/write ports across domains, _gray_encode/_gray_decode, constructor "
-            "depth rounding are hand-modelled in coq/Model/AsyncFifo.v and validated by this run; the simulator's event "
-            "scheduling for coincident edges is validated only. The write-domain reset path (r_rst) is modelled and "
-            "validated but the theorems cover reset-free runs only (plus the start-up r_rst pulse, which is part of "
-            "every run).")
+            "depth rounding and error classes, both domain resets are hand-modelled in coq/Model/AsyncFifo.v and validated "
+            "by this run; the simulator's event scheduling for coincident edges is validated only. AsyncFIFOBuffered "
+            "under write-domain reset is modelled and validated, its theorems exclude both resets.")
 ASSUMPTIONS = ["no metastability: a synchroniser flop samples the old value of its input at an edge (as the simulator does); "
                "the Gray single-bit-change theorem is what makes this sound in hardware",
-               "write-domain reset never asserted in the safety theorems (reset path validated only)"]
+               "write-domain reset: safety proved after episodes containing 1 write edge, then 3 read edges, then 2 write "
+               "edges (suff_reset); shorter episodes are refuted (finding " + F_SHORT + ")"]
 
-EVC = {"W": 1, "R": 2, "WR": 3}
+EXC = {"ValueError": 1, "TypeError": 2, "IndexError": 3}
 
 
-def word(ev, wen, ren, rst, data):
-    return ev + 4 * (wen + 2 * ren + 4 * rst) + 32 * data
+def exc_code(e):
+    n = type(e).__name__
+    return EXC.get(n, 100 + sum(map(ord, n)))
+
+
+def word(ev, wen, ren, rst, data, rrst=0):
+    return ev + 4 * (wen + 2 * ren + 4 * rst + 8 * rrst) + 64 * data
 
 
 def unword(x):
-    f = (x // 4) % 8
-    return x % 4, f & 1, x // 32, (f >> 1) & 1, (f >> 2) & 1     # ev, wen, wdata, ren, rst
+    f = (x // 4) % 16
+    return x % 4, f & 1, x // 64, (f >> 1) & 1, (f >> 2) & 1, (f >> 3) & 1   # ev, wen, wdata, ren, rst, rrst
 
 
 def pack(o):
@@ -56,8 +67,101 @@ def unpack(p):
                 r_data=q // 4096)
 
 
+# ------------------------------------------------------------------------------------------ specification monitor
+def ep_step(s, ev):
+    """progress of a write-reset episode through the flush pattern 1 W edge, 3 R edges, 2 W edges (= suff_reset)"""
+    if s in (0, 4, 5):
+        return s + 1 if ev & 1 else s
+    if s in (1, 2, 3):
+        return s + 1 if ev & 2 else s
+    return s
+
+
+def monitor(cls, depth, width, events, obs0, obs, lenient=(), drop_plan=None):
+    """Deque monitor over a recorded run.  events: unword tuples; obs0: outputs before the first event; obs[i]: outputs
+    after event i (dicts).  Returns 0 or 10*(index of the event before which the check failed + 1) + code:
+      4 w_rdy asserted while depth entries are held      5 r_rdy but r_data is not the oldest unread entry
+      6 a level outside 0..depth                         7 held entries not visible 2 (buffered 3) read edges after
+      8 not drained held+2 (buffered held+3) read edges after writing stopped with r_en kept high     writing stopped
+    Strict semantics: a write-domain reset episode empties the FIFO (whatever its length), a read-domain reset loses
+    nothing.  lenient = semantics of the recorded findings: 'short' (after an episode that does not contain the flush
+    pattern nothing is specified any more), 'bufreg' (the buffered output register keeps its entry across a write
+    reset), 'rrst' (the k-th read-domain reset edge of the buffered FIFO drops drop_plan[k] in 0..2 entries: the one in
+    the output register and the one the inner FIFO hands over at that edge; -1 is returned when the plan is exhausted)."""
+    if depth == 0:
+        for i, o in enumerate([obs0] + list(obs)):
+            if o["w_rdy"] or o["r_rdy"] or o["w_level"] or o["r_level"]:
+                return 10 * (i + 1) + 4
+        return 0
+    K = 2 if cls == 0 else 3
+    q = collections.deque()
+    in_ep, s, tainted, n_rr = False, 0, False, 0
+    quiet_r, quiet_allren, held_stop = 0, True, 0
+    pre = obs0
+
+    def check(pre):
+        if pre["w_rdy"] and len(q) >= depth:
+            return 4
+        if pre["r_rdy"] and (not q or q[0] != pre["r_data"]):
+            return 5
+        if not (0 <= pre["w_level"] <= depth and 0 <= pre["r_level"] <= depth):
+            return 6
+        if quiet_r >= K:
+            if bool(pre["r_rdy"]) != (len(q) > 0):
+                return 7
+            if cls == 0 and pre["r_level"] != len(q):
+                return 7
+        if quiet_allren and quiet_r >= held_stop + K and q:
+            return 8
+        return 0
+
+    for idx, (ev, wen, wd, ren, rst, rrst) in enumerate(events):
+        if rst:
+            if not in_ep:
+                in_ep, s = True, 0
+            s = ep_step(s, ev)
+            q.clear()
+            quiet_r, quiet_allren, held_stop = 0, True, 0
+            pre = obs[idx]
+            continue
+        if in_ep:
+            in_ep = False
+            if s < 6 and "short" in lenient:
+                tainted = True
+            if cls == 1 and "bufreg" in lenient and pre["r_rdy"]:
+                q.append(pre["r_data"])
+                held_stop = 1
+        if tainted:
+            pre = obs[idx]
+            continue
+        code = check(pre)
+        if code:
+            return 10 * (idx + 1) + code
+        if ev & 2 and ren and pre["r_rdy"]:
+            q.popleft()
+        if ev & 2 and rrst and cls == 1 and "rrst" in lenient:
+            if n_rr >= len(drop_plan):
+                return -1
+            for _ in range(min(drop_plan[n_rr], len(q))):
+                q.popleft()
+            n_rr += 1
+        if ev & 1 and wen and pre["w_rdy"]:
+            q.append(wd % (1 << width))
+        if wen or (rrst and cls == 1):
+            quiet_r, quiet_allren, held_stop = 0, True, len(q)
+        else:
+            quiet_r += 1 if ev & 2 else 0
+            quiet_allren = quiet_allren and bool(ren)
+        pre = obs[idx]
+    if not tainted and not in_ep:
+        code = check(pre)
+        if code:
+            return 10 * (len(events) + 1) + code
+    return 0
+
+
 # ------------------------------------------------------------------------------------------ generator
-def _strobes(rng, n, width, rst_p=0.0):
+def _strobes(rng, n, width):
     """strobe phases as in C12: fill, drain, balanced, saturated, write-only, read-only"""
     out = []
     phases = [(0.9, 0.15), (0.15, 0.9), (0.5, 0.5), (1.0, 1.0), (1.0, 0.0), (0.0, 1.0), (0.7, 0.7)]
@@ -68,8 +172,7 @@ def _strobes(rng, n, width, rst_p=0.0):
             pw, pr = rng.choice(phases)
             left = rng.randrange(10, 80)
         left -= 1
-        out.append((int(rng.random() < pw), int(rng.random() < pr), int(rng.random() < rst_p),
-                    rng.randrange(1 << width)))
+        out.append((int(rng.random() < pw), int(rng.random() < pr), rng.randrange(1 << width)))
     return out
 
 
@@ -85,6 +188,39 @@ def _events(rng, regime, n):
 
 
 REGIMES = ("1:1", "1:7", "7:1", "bursty", "coincident")
+BIG_DEPTHS = (63, 64, 65, 127, 128, 129, 255, 256, 257, 1000, 1024, 1025, 4096, 4097)
+
+
+def _walk(rng, regime, n_ev, width, flavour, tail_depth):
+    es = _events(rng, regime, n_ev)
+    ss = _strobes(rng, n_ev, width)
+    evs = []
+    i = 0
+    while i < n_ev:
+        e, (wen, ren, d) = es[i], ss[i]
+        if flavour in ("wrstL", "wrstS") and rng.random() < 0.012:
+            # a write-reset episode: long enough (flush pattern embedded) or short
+            if flavour == "wrstL" or rng.random() < 0.4:
+                pat = [1] + [rng.choice((2, 3)) for _ in range(3)] + [rng.choice((1, 3)) for _ in range(2)]
+                ep = []
+                for p in pat:
+                    ep += [rng.choice((1, 2, 3)) for _ in range(rng.randrange(0, 2))] + [p]
+            else:
+                ep = [rng.choice((1, 2, 3)) for _ in range(rng.randrange(1, 5))]
+            for p in ep:
+                evs.append(word(p, int(rng.random() < 0.5), int(rng.random() < 0.5), 1, rng.randrange(1 << width)))
+        rrst = int(flavour == "rrst" and rng.random() < 0.02)
+        evs.append(word(e, wen, ren, 0, d, rrst))
+        i += 1
+    if tail_depth:
+        # drain tail: no writes, r_en high, enough read edges for depth + 3 entries
+        need, t = tail_depth + 4, []
+        while need > 0:
+            e = rng.choice((1, 2, 2, 3))
+            need -= 1 if e & 2 else 0
+            t.append(word(e, 0, 1, 0, rng.randrange(1 << width)))
+        evs += t
+    return evs
 
 
 def gen_cases(tier, seed):
@@ -93,11 +229,15 @@ def gen_cases(tier, seed):
     short, long_ = [], []
     # (1) construct + elaborate
     for cls in (0, 1):
-        for depth in range(-3, 41):
+        for depth in list(range(-3, 41)) + list(BIG_DEPTHS):
             for exact in (False, True):
                 if depth >= 0:      # the specification quantifies over the documented depths (non-negative)
-                    short.append({"k": "elab", "cls": cls, "depth": depth, "exact": exact})
-                short.append({"k": "elabm", "cls": cls, "depth": depth, "exact": exact})
+                    short.append({"k": "elab", "cls": cls, "depth": depth, "exact": exact, "width": 4})
+                short.append({"k": "elabm", "cls": cls, "depth": depth, "exact": exact, "width": 4})
+        for depth in (-1, 0, 1, 3, 4, 5):      # negative width: TypeError unless the depth is rejected first
+            for exact in (False, True):
+                short.append({"k": "elabm", "cls": cls, "depth": depth, "exact": exact, "width": -1})
+                short.append({"k": "trace", "cls": cls, "depth": depth, "exact": exact, "width": -1, "ev": [], "g": "err"})
     # (2) Gray code helpers as elaborated
     for w in range(0, 8):
         xs = list(range(1 << w))
@@ -109,37 +249,58 @@ def gen_cases(tier, seed):
         short.append({"k": "gray", "w": w, "xs": xs})
     # (3) all event words of bounded length on the smallest depths
     pre_fill = [word(1, 1, 0, 0, 1), word(1, 1, 0, 0, 2), word(2, 0, 0, 0, 0), word(2, 0, 0, 0, 0)]
+    pre_fill3 = pre_fill + [word(2, 0, 0, 0, 0)]
     pre_start = [word(2, 0, 0, 0, 0)] * 3
     L = 6 if not thorough else 7
     P = L if thorough else L - 1
-    plans = [(0, 2, [], L + 1, "on"), (0, 2, [], L, "rnd"), (0, 2, pre_fill, P, "on"), (0, 2, pre_start, P, "rnd"),
-             (1, 3, [], L, "on"), (1, 3, pre_fill, P, "rnd"), (1, 3, pre_start, P, "on")]
-    for cls, depth, pre, maxlen, mode in plans:
+    plans = [(0, 2, 3, [], L + 1, "on"), (0, 2, 3, [], L, "rnd"), (0, 2, 3, pre_fill, P, "on"),
+             (0, 2, 3, pre_start, P, "rnd"), (1, 3, 3, [], L, "on"), (1, 3, 3, pre_fill, P, "rnd"),
+             (1, 3, 3, pre_start, P, "on"),
+             (0, 4, 1, pre_fill, 4 if not thorough else 5, "on"), (0, 4, 1, [], 4 if not thorough else 5, "rnd"),
+             (1, 5, 1, pre_fill, 4 if not thorough else 5, "rnd"), (1, 5, 1, [], 4 if not thorough else 5, "on")]
+    for cls, depth, width, pre, maxlen, mode in plans:
         for n in range(0 if not pre else 1, maxlen + 1):
             for w in itertools.product((1, 2, 3), repeat=n):
                 evs = list(pre)
                 for j, e in enumerate(w):
                     if mode == "on":
-                        evs.append(word(e, 1, 1, 0, (3 + j) % 8))
+                        evs.append(word(e, 1, 1, 0, (3 + j) % (1 << width)))
                     else:
-                        evs.append(word(e, int(rng.random() < 0.7), int(rng.random() < 0.7), 0, rng.randrange(8)))
-                short.append({"k": "trace", "cls": cls, "depth": depth, "exact": False, "width": 3, "ev": evs,
+                        evs.append(word(e, int(rng.random() < 0.7), int(rng.random() < 0.7), 0,
+                                        rng.randrange(1 << width)))
+                short.append({"k": "trace", "cls": cls, "depth": depth, "exact": False, "width": width, "ev": evs,
                               "g": "words"})
-    # (4) random walks
+    # words over events x {reset}: write-domain and read-domain reset, both classes, after a filling preamble
+    LR = 3 if not thorough else 4
+    for cls, depth in ((0, 2), (1, 3)):
+        for which in ("wrst", "rrst"):
+            for n in range(1, LR + 1):
+                for w in itertools.product(((1, 0), (2, 0), (3, 0), (1, 1), (2, 1), (3, 1)), repeat=n):
+                    if not any(r for _, r in w):
+                        continue
+                    evs = list(pre_fill3 if cls else pre_fill)
+                    for j, (e, r) in enumerate(w):
+                        evs.append(word(e, 1, j % 2, r if which == "wrst" else 0, 3 + j, r if which == "rrst" else 0))
+                    evs += [word(2, 0, 1, 0, 0)] * 3      # then read what is there
+                    short.append({"k": "trace", "cls": cls, "depth": depth, "exact": False, "width": 3, "ev": evs,
+                                  "g": "words+" + which})
+    # (4) random walks on constructible depths only
     n_ev = 400 if not thorough else 2000
     reps = 1 if not thorough else 4
+    req = {0: [(d, False) for d in (0, 2, 3, 4, 5, 6, 7, 8, 9, 16, 17)] + [(d, True) for d in (2, 4, 8, 16)],
+           1: [(d, False) for d in (0, 3, 4, 5, 6, 7, 8, 9, 10, 16, 17)] + [(d, True) for d in (3, 5, 9, 17)]}
     for cls in (0, 1):
-        for depth in (0, 1, 2, 3, 4, 5, 6, 7, 8, 9, 16, 17):
-            for exact in (False, True):
-                for regime in REGIMES:
-                    for rep in range(reps):
-                        width = rng.choice((0, 1, 3, 4, 8, 8, 12))
-                        rst_p = 0.02 if rng.random() < 0.15 else 0.0
-                        es = _events(rng, regime, n_ev)
-                        ss = _strobes(rng, n_ev, width, rst_p)
-                        evs = [word(e, wen, ren, rst, d) for e, (wen, ren, rst, d) in zip(es, ss)]
-                        long_.append({"k": "trace", "cls": cls, "depth": depth, "exact": exact, "width": width,
-                                      "ev": evs, "g": regime})
+        for depth, exact in req[cls]:
+            for regime in REGIMES:
+                for rep in range(reps):
+                    width = rng.choice((0, 1, 3, 4, 8, 8, 12))
+                    flavour = rng.choices(("plain", "wrstL", "wrstS", "rrst"), (58, 14, 13, 15))[0]
+                    built = _built_depth(cls, depth)
+                    tail = built if rng.random() < 0.5 else 0
+                    evs = _walk(rng, regime, n_ev, width, flavour, tail)
+                    long_.append({"k": "trace", "cls": cls, "depth": depth, "exact": exact, "width": width,
+                                  "ev": evs, "tail": bool(tail),
+                                  "g": regime + ("" if flavour == "plain" else "+" + flavour)})
     # spread the long walks evenly between the short cases (keeps every shard small)
     cases = []
     step = max(1, len(short) // max(1, len(long_)))
@@ -155,13 +316,23 @@ def gen_cases(tier, seed):
     return cases
 
 
+def _cl2(n):
+    return 0 if n == 0 else (n - 1).bit_length()
+
+
+def _built_depth(cls, depth):
+    if depth == 0:
+        return 0
+    return (1 << _cl2(depth)) if cls == 0 else (1 << _cl2(max(0, depth - 1))) + 1
+
+
 def classify(c):
     k = c["k"]
     if k == "trace":
         return f"trace/{'AB'[c['cls']]}/{c['g']}"
     if k == "gray":
         return "gray"
-    return f"{k}/{'AB'[c['cls']]}"
+    return f"{k}/{'AB'[c['cls']]}" + ("/w<0" if c.get("width", 4) < 0 else "")
 
 
 def nontrivial(c, obs):
@@ -174,28 +345,12 @@ def nontrivial(c, obs):
 
 
 # ------------------------------------------------------------------------------------------ implementation side
-def _exc(e):
-    return [-1, sum(map(ord, type(e).__name__))]
-
-
 def _cls(c):
     from amaranth.lib.fifo import AsyncFIFO, AsyncFIFOBuffered
     return (AsyncFIFO, AsyncFIFOBuffered)[c["cls"]]
 
 
-def _monitor(depth, pre, ev, wen, wd, ren, q):
-    """pre = observation before the event (dict). Returns failure code or 0."""
-    if pre["w_rdy"] and len(q) >= depth:
-        return 4                                    # w_rdy asserted while depth entries are held
-    if pre["r_rdy"] and (not q or q[0] != pre["r_data"]):
-        return 5                                    # r_rdy but r_data is not the oldest unread entry
-    if not (0 <= pre["w_level"] <= depth and 0 <= pre["r_level"] <= depth):
-        return 6
-    if ev & 2 and ren and pre["r_rdy"]:
-        q.popleft()
-    if ev & 1 and wen and pre["w_rdy"]:
-        q.append(wd)
-    return 0
+NAMES = ("w_rdy", "w_level", "r_rdy", "r_data", "r_level", "r_rst")
 
 
 def run_impl(c):
@@ -222,18 +377,17 @@ def run_impl(c):
         sim.add_testbench(tbg)
         sim.run()
         return out
+    # the exception CLASS of every failure is part of the answer; nothing is absorbed
     try:
-        f = _cls(c)(width=c.get("width", 4), depth=c["depth"], exact_depth=c["exact"])
-    except ValueError:
-        return [0]
+        f = _cls(c)(width=c["width"], depth=c["depth"], exact_depth=c["exact"])
     except Exception as e:
-        return _exc(e)
+        return [0, exc_code(e)]
     if k in ("elab", "elabm"):
         from amaranth.hdl import Fragment
         try:
             Fragment.get(f, None)
         except Exception as e:
-            return _exc(e) if k == "elab" else [1, f.depth, 0]
+            return [-1, exc_code(e)] if k == "elab" else [1, f.depth, 0, exc_code(e)]
         return [1, f.depth] if k == "elab" else [1, f.depth, 1]
     # trace
     from amaranth.hdl import Module, ClockDomain, Cat
@@ -244,13 +398,10 @@ def run_impl(c):
     m.submodules.fifo = f
     try:
         sim = Simulator(m)
-    except IndexError:
-        return [2, f.depth]
     except Exception as e:
-        return _exc(e)
+        return [2, f.depth, exc_code(e)]
     out = []
-    verdict = [0]
-    use_mon = not any(unword(x)[4] for x in c["ev"])
+    events = [unword(x) for x in c["ev"]]
     clk = Cat(cdw.clk, cdr.clk)
     depth = f.depth
 
@@ -258,31 +409,21 @@ def run_impl(c):
         def obs():
             return (ctx.get(f.w_rdy), ctx.get(f.w_level), ctx.get(f.r_rdy), ctx.get(f.r_data), ctx.get(f.r_level),
                     ctx.get(f.r_rst))
-        q = collections.deque()
-        names = ("w_rdy", "w_level", "r_rdy", "r_data", "r_level", "r_rst")
-        pre = dict(zip(names, obs()))
-        for idx, x in enumerate(c["ev"]):
-            ev, wen, wd, ren, rst = unword(x)
+        out.append(obs())
+        for ev, wen, wd, ren, rst, rrst in events:
             ctx.set(f.w_en, wen)
             ctx.set(f.w_data, wd)
             ctx.set(f.r_en, ren)
             ctx.set(cdw.rst, rst)
-            if use_mon and not verdict[0]:
-                code = _monitor(depth, pre, ev, wen, wd, ren, q)
-                if code:
-                    verdict[0] = 10 * (idx + 1) + code
+            ctx.set(cdr.rst, rrst)
             ctx.set(clk, ev)
-            o = obs()
-            out.append(pack(o))
-            pre = dict(zip(names, o))
+            out.append(obs())
             ctx.set(clk, 0)
-        if use_mon and not verdict[0]:
-            code = _monitor(depth, pre, 0, 0, 0, 0, q)
-            if code:
-                verdict[0] = 10 * (len(c["ev"]) + 1) + code
     sim.add_testbench(tb)
     sim.run()
-    return [1, depth] + out + verdict
+    dicts = [dict(zip(NAMES, o)) for o in out]
+    verdict = monitor(c["cls"], depth, c["width"], events, dicts[0], dicts[1:])
+    return [1, depth] + [pack(o) for o in out[1:]] + [verdict]
 
 
 # ------------------------------------------------------------------------------------------ model side
@@ -291,21 +432,56 @@ def coq_term(c):
     if k == "gray":
         return f"flat_map (k_gray {z(c['w'])}) {zlist(c['xs'])}"
     if k == "elab":
-        return f"k_elab {c['cls']} {z(c['depth'])} {blit(c['exact'])}"
+        return f"k_elab {c['cls']} {z(c['width'])} {z(c['depth'])} {blit(c['exact'])}"
     if k == "elabm":
-        return f"k_elab_model {c['cls']} {z(c['depth'])} {blit(c['exact'])}"
+        return f"k_elab_model {c['cls']} {z(c['width'])} {z(c['depth'])} {blit(c['exact'])}"
     return f"k_trace {c['cls']} {z(c['depth'])} {z(c['width'])} {blit(c['exact'])} {zlist(c['ev'])}"
 
 
+def _obs0(c, depth):
+    return dict(w_rdy=int(depth > 0), w_level=0, r_rdy=0, r_data=0, r_level=0, r_rst=0)
+
+
 def known_finding(c, obs, model):
-    """F4: AsyncFIFO whose constructed depth is 1 and AsyncFIFOBuffered whose constructed depth is 2 (requested 1 or 2)
-    construct but raise IndexError in elaborate()."""
-    if c["k"] != "elab" or c["depth"] < 0:
+    """A mismatch is a recorded finding only if the implementation behaved exactly as the (faithful) model predicts and
+    the specification-level difference is reproduced by the finding's semantics:
+    F4: the specification answer 'elaborates' for AsyncFIFO constructed depth 1 / AsyncFIFOBuffered constructed depth 2
+        (requested depth >= 0) against IndexError in elaborate().
+    reset findings: every output of every event equals the model's trace, only the specification monitor's verdict
+        differs (strict verdict != 0), and re-running the monitor over the observed run under the finding's lenient
+        semantics gives verdict 0."""
+    obs, model = list(obs), list(model)
+    if c["k"] == "elab":
+        if c["depth"] < 0 or obs != [-1, EXC["IndexError"]]:
+            return None
+        if (c["cls"] == 0 and model == [1, 1]) or (c["cls"] == 1 and model == [1, 2]):
+            return F4
         return None
-    if list(obs) != [-1, sum(map(ord, "IndexError"))]:
+    if c["k"] != "trace" or len(obs) < 3 or obs[0] != 1 or obs[:-1] != model[:-1] or model[-1] != 0 or obs[-1] == 0:
         return None
-    if (c["cls"] == 0 and list(model) == [1, 1]) or (c["cls"] == 1 and list(model) == [1, 2]):
-        return F4
+    events = [unword(x) for x in c["ev"]]
+    has_w = any(e[4] for e in events)
+    has_r = any(e[5] for e in events)
+    dicts = [unpack(p) for p in obs[2:-1]]
+    depth = obs[1]
+
+    def lenient(flags):
+        return monitor(c["cls"], depth, c["width"], events, _obs0(c, depth), dicts, lenient=flags) == 0
+
+    def search(plan):       # some choice of 0..2 dropped entries per read-reset edge explains the whole run
+        v = monitor(c["cls"], depth, c["width"], events, _obs0(c, depth), dicts, lenient=("rrst",), drop_plan=plan)
+        if v == -1:
+            return any(search(plan + [d]) for d in (0, 1, 2))
+        return v == 0
+    if has_r and not has_w and c["cls"] == 1 and search([]):
+        return F_RRST
+    if has_w and not has_r:
+        if c["cls"] == 1 and lenient(("bufreg",)):
+            return F_BUFREG
+        if lenient(("short",)):
+            return F_SHORT
+        if c["cls"] == 1 and lenient(("short", "bufreg")):
+            return F_SHORT
     return None
 
 
@@ -329,44 +505,49 @@ def shrink(c, obs, model):
 
 def extra(tier, seed, findings):
     """Measured reach of the random walks (no verdict here: the walks are compared case by case above)."""
-    walks = [c for c in gen_cases(tier, seed) if c["k"] == "trace" and c["g"] != "words"]
+    walks = [c for c in gen_cases(tier, seed) if c["k"] == "trace" and not c["g"].startswith(("words", "err"))]
     rng = random.Random(seed + 1)
     sample = rng.sample(walks, min(len(walks), 80))
     st = collections.Counter()
     for c in sample:
         obs = run_impl(c)
         if obs[0] != 1 or obs[1] == 0:
-            st["walks_not_simulated(ctor error / F4 depth / depth 0)"] += 1
+            st["walks_not_simulated(depth 0)"] += 1
             continue
         depth = obs[1]
         o = [unpack(p) for p in obs[2:-1]]
+        evs = [unword(x) for x in c["ev"]]
         st["walks_simulated"] += 1
         st["events"] += len(o)
-        st["coincident_events"] += sum(1 for x in c["ev"] if x % 4 == 3)
-        st["walks_with_reset_pulses"] += int(any(unword(x)[4] for x in c["ev"]))
+        st["coincident_events"] += sum(1 for e in evs if e[0] == 3)
+        st["walks_with_write_reset"] += int(any(e[4] for e in evs))
+        st["walks_with_read_reset"] += int(any(e[5] for e in evs))
         st["walks_reaching_full(w_rdy=0)"] += int(any(not x["w_rdy"] for x in o))
         st["walks_level_reaches_depth"] += int(any(x["w_level"] == depth or x["r_level"] == depth for x in o))
         wr = rd = 0
         pre = dict(w_rdy=1, r_rdy=0)
-        for x, ob in zip(c["ev"], o):
-            ev, wen, _, ren, _ = unword(x)
-            wr += int(ev & 1 and wen and pre["w_rdy"])
-            rd += int(ev & 2 and ren and pre["r_rdy"])
+        for (ev, wen, _, ren, rst, _), ob in zip(evs, o):
+            if not rst:
+                wr += int(ev & 1 and wen and pre["w_rdy"])
+                rd += int(ev & 2 and ren and pre["r_rdy"])
             pre = ob
         st["accepted_writes"] += wr
         st["accepted_reads"] += rd
         st["walks_pointer_wraps(>= 2*depth entries passed)"] += int(rd >= 2 * depth)
-        st["walks_drained_to_empty_after_data"] += int(rd > 0 and wr == rd)
-        st["monitor_failures"] += int(obs[-1] != 0)
+        st["walks_with_drain_tail"] += int(c.get("tail", False))
+        st["monitor_failures(strict)"] += int(obs[-1] != 0)
     return [], {"walk_reach_sample": dict(st)}
 
 
 def explain(c):
     if c["k"] == "trace":
-        return ("events: code(1=W,2=R,3=WR) + 4*(w_en + 2*r_en + 4*rst) + 32*w_data; answer [1, depth, obs.., verdict]: "
-                "obs = w_rdy + 2*r_rdy + 4*r_rst + 8*(w_level + 64*(r_level + 64*r_data)) after each event; verdict = "
-                "deque monitor: 0 ok, else 10*(event index+1) + code (4 w_rdy while full, 5 r_rdy/r_data not oldest "
-                "unread, 6 level out of range); [2, depth] = elaboration raises IndexError; [0] = constructor ValueError")
+        return ("events: code(1=W,2=R,3=WR) + 4*(w_en + 2*r_en + 4*write-rst + 8*read-rst) + 64*w_data; answer "
+                "[1, depth, obs.., verdict]: obs = w_rdy + 2*r_rdy + 4*r_rst + 8*(w_level + 64*(r_level + 64*r_data)) "
+                "after each event; verdict = specification monitor: 0 ok, else 10*(index of the event before which the "
+                "check failed + 1) + code (4 w_rdy while full, 5 r_rdy/r_data not oldest unread, 6 level out of range, "
+                "7 held entries not visible in time, 8 not drained in time); [2, depth, c] = elaboration raises class c; "
+                "[0, c] = constructor raises class c (1 ValueError, 2 TypeError, 3 IndexError)")
     if c["k"] == "elab":
-        return "spec answer: [0] constructor ValueError, [1, depth] constructed and elaborates; observed [-1, code] = exception"
+        return ("spec answer: [0, c] constructor raises class c, [1, depth] constructed and elaborates; observed "
+                "[-1, c] = elaboration raised class c")
     return ""
